@@ -18,6 +18,7 @@ import DuckModel.Drv.C17
 import DuckModel.Drv.C18
 import DuckModel.Drv.C19
 import DuckModel.Drv.C20
+import DuckModel.Drv.C15S
 
 namespace Duck.Driver
 
@@ -36,7 +37,8 @@ def handlers : List (List String → Option String) := [
   Duck.Drv.C17.handle,
   Duck.Drv.C18.handle,
   Duck.Drv.C19.handle,
-  Duck.Drv.C20.handle
+  Duck.Drv.C20.handle,
+  Duck.Drv.C15S.handle
 ]
 
 def dispatch (toks : List String) : String :=
